@@ -1267,6 +1267,19 @@
 
     static constexpr auto number_of_limbs_karatsuba_threshold = static_cast<size_t>(128U + 1U);
 
+    // Karatsuba multiplication halves the limb count until it is no more than 48
+    // and is only correct if every count that it halves is even.
+    static constexpr auto number_of_limbs_karatsuba_is_splittable(size_t count) -> bool
+    {
+      return (count <= static_cast<size_t>(UINT8_C(48)))
+               || (((count % 2U) == 0U) && number_of_limbs_karatsuba_is_splittable(count / 2U));
+    }
+
+    template<const size_t OtherWidth2>
+    static constexpr auto use_karatsuba_v =
+         ((OtherWidth2 / std::numeric_limits<limb_type>::digits) >= number_of_limbs_karatsuba_threshold)
+      && number_of_limbs_karatsuba_is_splittable(OtherWidth2 / std::numeric_limits<limb_type>::digits);
+
     // Verify that the Width2 template parameter (mirrored with my_width2):
     //   * Is equal to 2^n times 1...63.
     //   * And that there are at least 16, 24 or 32 binary digits, or more.
@@ -2631,7 +2644,7 @@
     template<const size_t OtherWidth2>
     static WIDE_INTEGER_CONSTEXPR void eval_mul_unary(      uintwide_t<OtherWidth2, LimbType, AllocatorType, IsSigned>& u,
                                                       const uintwide_t<OtherWidth2, LimbType, AllocatorType, IsSigned>& v,
-                                                      typename std::enable_if<((OtherWidth2 / std::numeric_limits<LimbType>::digits) < number_of_limbs_karatsuba_threshold)>::type* p_nullparam = nullptr)
+                                                      typename std::enable_if<(!use_karatsuba_v<OtherWidth2>)>::type* p_nullparam = nullptr)
     {
       static_cast<void>(p_nullparam == nullptr);
 
@@ -2657,7 +2670,7 @@
     template<const size_t OtherWidth2>
     static WIDE_INTEGER_CONSTEXPR void eval_mul_unary(      uintwide_t<OtherWidth2, LimbType, AllocatorType, IsSigned>& u,
                                                       const uintwide_t<OtherWidth2, LimbType, AllocatorType, IsSigned>& v,
-                                                      typename std::enable_if<((OtherWidth2 / std::numeric_limits<LimbType>::digits) >= number_of_limbs_karatsuba_threshold)>::type* p_nullparam = nullptr)
+                                                      typename std::enable_if<use_karatsuba_v<OtherWidth2>>::type* p_nullparam = nullptr)
     {
       static_cast<void>(p_nullparam == nullptr);
 
